@@ -211,7 +211,7 @@ def fixed_history_cases(tier, seed):
         [[3], [4], [5], [3]], [[0, 1, 2], [0, 1, 2]], [[7, 6], [6, 7, 0], [0]], [[0, 1, 2, 3], [0, 1, 2], [0, 1], [0]],
     ]
     for h in hist:
-        for vpc in (True, False):
+        for vpc in (True, False, 1, 0):
             for pooling in (False, True):
                 yield {"steps": h, "use_vpc": vpc, "pooling": pooling, "nkeys": 60}
     # the configuration version the endpoint reports grows with every topology change and crosses digit boundaries
@@ -230,7 +230,7 @@ def history_strategy(tier):
     nodes = st.lists(st.integers(0, 7), min_size=1, max_size=6, unique=True)
     sched = st.one_of(st.none(), st.lists(st.sampled_from([1, 2, 3, 5, 8, 13, 50, 4096]), min_size=1, max_size=4))
     fb = st.dictionaries(st.sampled_from(["1", "2", "3"]), st.lists(st.integers(0, 7), min_size=1, max_size=3, unique=True), max_size=2)
-    return st.fixed_dictionaries({"steps": st.lists(nodes, min_size=1, max_size=6), "use_vpc": st.booleans(), "pooling": st.booleans(),
+    return st.fixed_dictionaries({"steps": st.lists(nodes, min_size=1, max_size=6), "use_vpc": st.sampled_from([True, False, 1, 0]), "pooling": st.booleans(),
                                   "nkeys": st.sampled_from([20, 60, 200]), "schedule": sched, "fail_before": fb,
                                   "retry_attempts": st.sampled_from([0, 1, 2]), "version_base": st.sampled_from([1, 1, 8, 9, 98, 99, 65535])})
 
